@@ -34,6 +34,8 @@ type Gate struct {
 	release  chan struct{}
 	once     sync.Once
 	passed   atomic.Int64
+	timedOut atomic.Int64 // arrivals that gave up waiting for Release (the forced schedule was NOT kept)
+	hold     time.Duration
 }
 
 func NewHookCtl(seed uint64) *HookCtl {
@@ -83,9 +85,16 @@ func (h *HookCtl) cb(point, key string, n int64) {
 		return // runs under the cache mutex: never block here
 	}
 	if g != nil {
+		hold := g.hold
+		if hold <= 0 {
+			hold = 10 * time.Second
+		}
+		t := time.NewTimer(hold)
 		select {
 		case <-g.release:
-		case <-time.After(10 * time.Second):
+			t.Stop()
+		case <-t.C:
+			g.timedOut.Add(1)
 			h.GateTimeouts.Add(1)
 		}
 		g.passed.Add(1)
@@ -107,6 +116,17 @@ func (h *HookCtl) SetRandomDelays(on bool) { h.delayOn.Store(on) }
 // goroutines wait there. key "*" matches any key.
 func (h *HookCtl) Gate(point, key string, need int) *Gate {
 	g := &Gate{need: need, arriveCh: make(chan struct{}), release: make(chan struct{})}
+	h.mu.Lock()
+	h.gates[point+"|"+key] = g
+	h.mu.Unlock()
+	return g
+}
+
+// GateHold is Gate with an explicit bound on how long an arrival is held (default 10 s). Scenarios whose driver
+// may legitimately need longer than that between the arrival and the Release (slow machine) use a larger bound;
+// whether the bound was hit is reported by TimedOut, so that a degraded schedule is never judged as the forced one.
+func (h *HookCtl) GateHold(point, key string, need int, hold time.Duration) *Gate {
+	g := &Gate{need: need, arriveCh: make(chan struct{}), release: make(chan struct{}), hold: hold}
 	h.mu.Lock()
 	h.gates[point+"|"+key] = g
 	h.mu.Unlock()
@@ -147,6 +167,21 @@ func (g *Gate) WaitArrived(max time.Duration) bool {
 
 // Release lets everyone pass (idempotent).
 func (g *Gate) Release() { g.once.Do(func() { close(g.release) }) }
+
+// TimedOut is the number of arrivals that left the gate because their hold expired, not because of Release:
+// if it is non-zero the interleaving the gate was meant to force did not (necessarily) happen.
+func (g *Gate) TimedOut() int64 { return g.timedOut.Load() }
+
+// Kept reports whether the gate forced its schedule: `need` goroutines arrived and none of them left on a timeout.
+// Call it after Release and after the gated operations returned.
+func (g *Gate) Kept() bool {
+	select {
+	case <-g.arriveCh:
+		return g.timedOut.Load() == 0
+	default:
+		return false
+	}
+}
 
 // Passed is the number of goroutines that went through the gate.
 func (g *Gate) Passed() int64 { return g.passed.Load() }
